@@ -3717,3 +3717,20 @@ package otto
 //@   at_call (*object).hasProperty : arg0 == obj && arg1 == name
 //@   at_call (*object).get @2 : arg0 == obj && arg1 == name && called(h) && h
 //@   at_call strconv.FormatInt : arg0 == index && arg1 == 10
+
+// 15.2.3.4 getOwnPropertyNames / 15.2.3.14 keys: TypeError unless O is an object; all own
+// properties (enumerable or not) resp. the enumerable own ones, each named once.
+//@ func builtinObjectGetOwnPropertyNames
+//@   props C07
+//@   nosafety
+//@   requires wfCall(call) && argsOK(call.ArgumentList) && call.runtime != nil
+//@   stable call.ArgumentList
+//@   at_call (*object).enumerate : arg0 == obj && arg1
+//@   nocall (*runtime).newArray(_, _) when argOf(call, 0).kind != valueObject
+//@ func builtinObjectKeys
+//@   props C07
+//@   nosafety
+//@   requires wfCall(call) && argsOK(call.ArgumentList) && call.runtime != nil
+//@   stable call.ArgumentList
+//@   at_call (*object).enumerate : arg0 == obj && !arg1
+//@   at_call (*runtime).panicTypeError : argOf(call, 0).kind != valueObject
